@@ -199,6 +199,20 @@ func (db *DB) FindInBatches(dest interface{}, batchSize int, fc func(tx *DB, bat
 		}
 	}
 
+	// the batch cursor added below has to restrict all conditions, group conditions combined with OR
+	if c, ok := tx.Statement.Clauses["WHERE"]; ok {
+		if where, ok := c.Expression.(clause.Where); ok {
+			for _, expr := range where.Exprs {
+				if orCond, ok := expr.(clause.OrConditions); ok && len(orCond.Exprs) == 1 {
+					where.Exprs = []clause.Expression{clause.And(where.Exprs...)}
+					c.Expression = where
+					tx.Statement.Clauses["WHERE"] = c
+					break
+				}
+			}
+		}
+	}
+
 	for {
 		result := queryDB.Limit(batchSize).Find(dest)
 		rowsAffected += result.RowsAffected
